@@ -258,6 +258,13 @@ theorem dinv_step (a : Act) (me : Bool) (h : DInv d) (hs : dstep d a me = some d
     | ret => exact dinv_ret h hs
     | doneAgain => exact dinv_doneAgain h hs
 
+/-- An action of somebody else leaves the followed task alone, except the scheduler's `close` / `count` on the
+    task's own request. (This is why the acceptor only has to apply `dstep … false` to the task whose request
+    the scheduler holds: for every task of a trace the events form a run of `fstep`.) -/
+theorem dstep_other_id (d : DSt) (a : Act) (h1 : ¬(a = .close ∧ d.req = 2)) (h2 : ¬(a = .count ∧ d.req = 3)) :
+    dstep d a false = some d := by
+  cases a <;> simp_all [dstep]
+
 theorem fstep_some {f f' : FSt} {a : Act} {me : Bool} (h : fstep f a me = some f') :
     step f.g a = some f'.g ∧ dstep f.d a me = some f'.d := by
   unfold fstep at h
